@@ -23,6 +23,7 @@ it is left out of the receive-filter predicate (counted)."""
 import copy
 import random
 import signal
+import time
 from concurrent.futures import ThreadPoolExecutor
 
 import numpy as np
@@ -32,9 +33,9 @@ from ..core import pool_map
 
 MODULE = "comm/BlockDiag.tla"
 DEVS = ["RejectedMetricCommitted", "NaiveKeepsCallerDict", "ReturnedNsAliasesChannel", "ArgsNotResetOnMetricChange",
-        "StaleStreamCounts", "SolveStoresDecision", "PowerCachedAtConstruction"]
+        "StaleStreamCounts", "SolveStoresDecision", "PowerCachedAtConstruction", "AbsoluteRankTolerance"]
 ALL_ACTS = {"Construct", "SetAttr", "SetMetric", "EditDict", "NewChannel", "SolveBD", "SolveExt", "CalcWhitening", "CalcReceiveFilter", "Scribble"}
-INVS = ["TypeOK", "MetricArgsConsistent", "ChannelIntact", "NoSharedDict", "RequiredAfterSolve", "ResultObeysCurrentAttributes"]
+INVS = ["TypeOK", "MetricArgsConsistent", "ChannelIntact", "NoSharedDict", "RequiredAfterSolve", "ResultObeysCurrentAttributes", "RankIsScaleFree"]
 PROPS = ["RejectedLeavesUnchanged", "OnlySetMetricChangesMetric", "SolveUsesCurrentMetric", "SolveLeavesConfig", "OnlySettersChangeObject",
          "SetAttrChangesOnlyThat"]
 TOL = 1e-7          # (rel) nulling / power
@@ -43,9 +44,9 @@ POWERED = 1e-8      # a stream is "powered" above this fraction of the user powe
 JVM_ENV = {"JAVA_TOOL_OPTIONS": "-XX:CICompilerCount=2"}
 
 
-def model(classes, ks, ants, ranks, pl, nvl, pel, sns, mods, plens, extras=False, sweep=False, dev=(), emit=True, acts=ALL_ACTS):
+def model(classes, ks, ants, ranks, pl, nvl, pel, sns, mods, plens, extras=False, sweep=False, dev=(), emit=True, acts=ALL_ACTS, scales=(0,)):
     d = {k: (k in dev) for k in DEVS}
-    defs = {"Classes": tlc.tla(set(classes)), "Ks": tlc.tla(set(ks)), "Ants": tlc.tla(set(ants)), "Ranks": tlc.tla(set(ranks)),
+    defs = {"Classes": tlc.tla(set(classes)), "Ks": tlc.tla(set(ks)), "Ants": tlc.tla(set(ants)), "Ranks": tlc.tla(set(ranks)), "Scales": "{" + ", ".join(str(int(x)) for x in sorted(set(scales))) + "}",
             "PLabels": tlc.tla(set(pl)), "NvLabels": tlc.tla(set(nvl)), "PeLabels": tlc.tla(set(pel)),
             "StreamNs": tlc.tla(set(sns)), "Mods": tlc.tla(set(mods)), "PLens": tlc.tla(set(plens)),
             "Acts": tlc.tla(set(acts)), "Dev": tlc.tla(d)}
@@ -302,7 +303,7 @@ def same_result(a, b):
             return False
         for u, v in zip(xs, ys):
             u, v = np.asarray(u), np.asarray(v)
-            if u.shape != v.shape or not np.allclose(u, v, rtol=1e-9, atol=1e-12):
+            if u.shape != v.shape or not np.allclose(u, v, rtol=1e-9, atol=1e-12 * max(1e-300, float(np.abs(v).max()) if v.size else 0.0)):
                 return False
     return True
 
@@ -551,10 +552,11 @@ class Driver:
             return bad
         if op == "NewChannel":
             N, rE = a["N"], a["rE"]
-            self.M, rd = draw_channel(self.rs, K, N, rE)
+            unit, rd = draw_channel(self.rs, K, N, rE)           # guard on the unit-scale draw, then the scale regime
+            self.M = unit * 10.0 ** a.get("sc", 0)
             self.redraws += rd
             self.dims = (K, N, rE)
-            self.ch_nv = c["nv"]
+            self.ch_nv = c["nv"] * 10.0 ** (2 * a.get("sc", 0))   # the channel object's noise scales with the channel
             self.ch = make_mu_channel(self.M, K, N, rE, self.ch_nv, variant=self.rs.randint(0, 2)) if rE else None
             return bad
         K, N, rE = self.dims
@@ -729,7 +731,7 @@ def explore(ctx, label, r, mode, seed_base):
 def model_devs(ctx):
     out = {}
     for dev in DEVS:
-        cfg, defs = model(["EBD"], [2], [2], [1], ["lo", "hi"], ["lo"], ["hi"], [1, 2], ["PSK4"], [120], emit=False, dev=[dev])
+        cfg, defs = model(["EBD"], [2], [2], [1], ["lo", "hi"], ["lo"], ["hi"], [1, 2], ["PSK4"], [120], emit=False, dev=[dev], scales=[-7, 0])
         r = tlc_cached(cfg, defs, 900)
         if not r.violated:
             raise tlc.TlcError(f"deviation {dev} is not detected by the laws of BlockDiag.tla")
@@ -740,35 +742,33 @@ def model_devs(ctx):
 def instances(tier):
     """(label, model arguments, replay mode)"""
     thorough = tier == "thorough"
-    sweep_kw = dict(sweep=True)
+    sweep_kw = dict(sweep=True, scales=[-7, -3, 0, 4, 7] if thorough else [-7, 0, 7])
     pel = ["zero", "lo", "hi"] if thorough else ["zero", "hi"]
     sns = [1, 2, 3] if thorough else [1, 2]
     mods = ["PSK4", "QAM16"] if thorough else ["PSK4"]
     plab = ["lo", "hi", "mid"] if thorough else ["lo", "hi"]
     res = []
-    # configuration sweep: one TLC run per class (EnhancedBD per K)
-    res.append(("sweep:BD", (["BD"], [2, 3, 4], [1, 2, 3], [1, 2], plab, ["lo", "hi"], ["zero"], sns, mods, [120]), sweep_kw, {"max_len": 8}))
-    res.append(("sweep:WBD", (["WBD"], [2, 3, 4], [1, 2, 3], [1, 2], plab, ["lo", "hi"], pel, sns, mods, [120]), sweep_kw, {"max_len": 8}))
-    for K in (2, 3, 4):
-        res.append((f"sweep:EBD:K{K}", (["EBD"], [K], [1, 2, 3], [1, 2], plab, ["lo", "hi"], pel, sns, mods, [120]), sweep_kw, {"max_len": 8}))
+    # configuration sweep: every class x K x antennas x rank x scale x power x noise x ext-int power x metric (one TLC run;
+    # BlockDiagonalizer objects have pe = "na", so the three classes do not multiply)
+    res.append(("sweep", (["BD", "WBD", "EBD"], [2, 3, 4], [1, 2, 3], [1, 2], plab, ["lo", "hi"], pel, sns, mods, [120]), sweep_kw, {"max_len": 8}))
     # call histories
     if thorough:
-        res.append(("history:BD", (["BD"], [3], [1, 2, 3], [1], ["lo", "hi", "mid"], ["lo", "hi"], ["zero"], [1], ["PSK4"], [120]), {}, {"walks": 300, "walk_len": 12}))
-        res.append(("history:WBD", (["WBD"], [2], [1, 2, 3], [1, 2], ["lo", "hi"], ["lo", "hi"], ["zero", "hi"], [1], ["PSK4"], [120]), {}, {"walks": 300, "walk_len": 12}))
-        res.append(("history:EBD:attrs", (["EBD"], [3], [2, 3], [1], ["lo", "hi"], ["lo", "hi"], ["zero", "hi"], [1, 2], ["PSK4"], [120]), {},
+        res.append(("history:BD", (["BD"], [3], [1, 2, 3], [1], ["lo", "hi", "mid"], ["lo", "hi"], ["zero"], [1], ["PSK4"], [120]), {"scales": [-7, 0, 7]}, {"walks": 300, "walk_len": 12}))
+        res.append(("history:WBD", (["WBD"], [2], [1, 2, 3], [1, 2], ["lo", "hi"], ["lo", "hi"], ["zero", "hi"], [1], ["PSK4"], [120]), {"scales": [-7, 0, 7]}, {"walks": 300, "walk_len": 12}))
+        res.append(("history:EBD:attrs", (["EBD"], [3], [2, 3], [1], ["lo", "hi"], ["lo", "hi"], ["zero", "hi"], [1, 2], ["PSK4"], [120]), {"scales": [-7, 0]},
                     {"walks": 800, "walk_len": 14, "max_len": 14}))
         res.append(("history:EBD:K2", (["EBD"], [2], [2, 3], [1, 2], ["hi"], ["lo"], ["hi"], [1, 2, 3], ["PSK4", "QAM16"], [120]),
-                    {"extras": True}, {"walks": 1500, "walk_len": 14, "max_len": 14}))
+                    {"extras": True, "scales": [0, 7]}, {"walks": 1500, "walk_len": 14, "max_len": 14}))
         res.append(("history:EBD:K3", (["EBD"], [3], [1, 2], [1, 2], ["lo"], ["hi"], ["lo"], [1, 2], ["PSK4"], [60, 120]),
-                    {"extras": True}, {"walks": 1500, "walk_len": 14, "max_len": 14}))
+                    {"extras": True, "scales": [-7, 0]}, {"walks": 1500, "walk_len": 14, "max_len": 14}))
         res.append(("history:EBD:K3b", (["EBD"], [3], [2, 3], [1, 2], ["mid"], ["mid"], ["hi"], [1, 2, 3], ["QAM16"], [120]),
                     {}, {"walks": 1500, "walk_len": 14, "max_len": 14}))
         res.append(("history:EBD:K4pe0", (["EBD"], [4], [2, 3], [1], ["mid"], ["mid"], ["zero"], [1, 2], ["PSK4"], [120]),
-                    {}, {"walks": 800, "walk_len": 14, "max_len": 14}))
+                    {"scales": [-7, 7]}, {"walks": 800, "walk_len": 14, "max_len": 14}))
     else:
-        res.append(("history:BD", (["BD"], [3], [2, 3], [1], ["lo", "hi"], ["lo", "hi"], ["zero"], [1], ["PSK4"], [120]), {}, {"walks": 20, "walk_len": 10}))
-        res.append(("history:WBD", (["WBD"], [2], [2, 3], [1], ["lo", "hi"], ["lo"], ["zero", "hi"], [1], ["PSK4"], [120]), {}, {"walks": 20, "walk_len": 10}))
-        res.append(("history:EBD:attrs", (["EBD"], [2], [2], [1], ["lo", "hi"], ["lo"], ["zero", "hi"], [1], ["PSK4"], [120]), {},
+        res.append(("history:BD", (["BD"], [3], [2, 3], [1], ["lo", "hi"], ["lo", "hi"], ["zero"], [1], ["PSK4"], [120]), {"scales": [-7, 0, 7]}, {"walks": 20, "walk_len": 10}))
+        res.append(("history:WBD", (["WBD"], [2], [2, 3], [1], ["lo", "hi"], ["lo"], ["zero", "hi"], [1], ["PSK4"], [120]), {"scales": [0, 7]}, {"walks": 20, "walk_len": 10}))
+        res.append(("history:EBD:attrs", (["EBD"], [2], [2], [1], ["lo", "hi"], ["lo"], ["zero", "hi"], [1], ["PSK4"], [120]), {"scales": [-7]},
                     {"walks": 40, "walk_len": 12, "max_len": 12}))
         res.append(("history:EBD:K2", (["EBD"], [2], [2, 3], [1], ["hi"], ["lo"], ["hi"], [1, 2], ["PSK4"], [120]), {"extras": True},
                     {"walks": 60, "walk_len": 12, "max_len": 12}))
@@ -804,7 +804,9 @@ def run(ctx):
         devf.result()
     nedges = {}
     for n, (inst, r) in enumerate(zip(insts, runs)):
+        t0 = time.time()
         nedges[inst[0]] = explore(ctx, inst[0], r, inst[3], ctx.seed * 131 + n)
+        ctx.notes.setdefault("replay_wall_s", {})[inst[0]] = round(time.time() - t0, 1)
     ctx.notes["edges_per_instance"] = nedges
     ctx.require_actions(["Construct", "SetAttr", "SetMetric", "SetMetricRejected", "EditDict", "NewChannel", "SolveBD", "SolveExt",
                          "CalcWhitening", "CalcReceiveFilter", "Scribble"])
